@@ -5,7 +5,7 @@ import itertools
 import numpy as np
 
 from .. import gen
-from ..models import resolve, stencil, topo
+from ..models import linktable, resolve, stencil, topo
 
 ID = "C04"
 NEEDS_SHIM = False
@@ -124,7 +124,8 @@ def run_faces(ctx, desc):
     ds = xr.Dataset(coords=coords)
     cm = {"X": {"center": "x", stag: "xs"}, "Y": {"center": "y", stag: "ys"}}
     rule, fv = desc["rule"], desc["fill"]
-    g = Grid(ds, coords=cm, face_connections={"face": t}, periodic=False, boundary=dict(rule), fill_value=fv, autoparse_metadata=False)
+    t_listed = linktable.listed_in_order(t, desc["dseed"]) if desc["dseed"] % 2 else t
+    g = Grid(ds, coords=cm, face_connections={"face": t_listed}, periodic=False, boundary=dict(rule), fill_value=fv, autoparse_metadata=False)
 
     def comp_arrays(scale):
         # own-side component (what the user holds) and opposite-side component (the truth on the other edge)
